@@ -7,6 +7,8 @@ import DcmVerif.Model.Stack
 import DcmVerif.Model.Filter
 import DcmVerif.Model.Json
 import DcmVerif.Model.Extract
+import DcmVerif.Model.Group
+import DcmVerif.Model.Cli
 /-! `dcmdriver`: one JSON object per input line, one JSON answer per line.  Values of metadata
 are opaque strings (the harness sends the canonical JSON text of each value), so equality in the
 model is string equality. -/
@@ -349,6 +351,52 @@ def handle (j : Json) : Except String Json := do
     pure (match Ex.extractKeys rules ts es with
       | none => Json.str "ValueError"
       | some ks => Json.arr (ks.map Json.str).toArray)
+  | "group" =>
+    let warn ← (← j.getObjVal? "warn").getBool?
+    let items ← (← (← j.getObjVal? "items").getArr?).toList.mapM fun it => do
+      match it with
+      | Json.str "n" => pure (Grp.Item.nonImage : Grp.Item String (List (Option (List Int))))
+      | Json.str "u" => pure Grp.Item.unreadable
+      | _ =>
+        let a ← it.getArr?
+        match a.toList with
+        | [i, e, c] =>
+          let cs ← (← c.getArr?).toList.mapM fun comp =>
+            if comp.isNull then pure none
+            else do
+              let xs ← (← comp.getArr?).toList.mapM fun x => x.getInt?
+              pure (some xs)
+          pure (Grp.Item.file (← i.getNat?) (← e.getStr?) cs)
+        | _ => .error "bad item"
+    -- np.allclose(c_val, new, atol=5e-5) on a 1e6 lattice: |a − b| ≤ 50 + 1e-5·|b|
+    let closeOne (a b : Option (List Int)) : Bool :=
+      match a, b with
+      | none, none => true
+      | some x, some y => x.length == y.length &&
+          (x.zip y).all fun p => decide ((p.1 - p.2).natAbs * 100000 ≤ 50 * 100000 + p.2.natAbs)
+      | _, _ => false
+    let closeB (a b : List (Option (List Int))) : Bool :=
+      a.length == b.length && (a.zip b).all fun p => closeOne p.1 p.2
+    pure (match Grp.parseAndGroup closeB warn items with
+      | .raised => Json.str "raised"
+      | .ok g => Json.arr (g.flatMap fun p => p.2.map fun sub =>
+          Json.arr (sub.2.map fun (n : Nat) => (n : Json)).toArray).toArray)
+  | "inject" =>
+    let e ← getExt (← j.getObjVal? "ext")
+    let c ← clsOf (← (← j.getObjVal? "cls").getStr?)
+    let key ← (← j.getObjVal? "key").getStr?
+    let vals ← getStrList (← j.getObjVal? "values")
+    let force ← (← j.getObjVal? "force").getBool?
+    pure (match Cli.inject e c key vals force with
+      | .rc n => Json.mkObj [("rc", (n : Json))]
+      | .ok r => Json.mkObj [("ok", extJson r)])
+  | "cli_seq" =>
+    let alias ← (← j.getObjVal? "alias").getBool?
+    let g : Cli.Globals := { excl := ← getStrList (← j.getObjVal? "excl"), incl := ← getStrList (← j.getObjVal? "incl") }
+    let as ← (← (← j.getObjVal? "args").getArr?).toList.mapM fun a => do
+      pure ({ extraExcl := ← getStrList (← a.getObjVal? "e"), extraIncl := ← getStrList (← a.getObjVal? "i") } : Cli.Args)
+    pure (Json.arr ((Cli.runSeq alias g as).map fun p =>
+      Json.arr #[Json.arr (p.1.map Json.str).toArray, Json.arr (p.2.map Json.str).toArray]).toArray)
   | _ => .error s!"unknown op {op}"
 
 partial def loop (hin hout : IO.FS.Stream) : IO Unit := do
